@@ -479,9 +479,12 @@ class ExcelParser(ExcelParserTokens):
 
             # standard postfix operators
             if ("%".find(currentChar()) != -1):
-                try:
+                if re.match(
+                        r'^([0-9]+\.?[0-9]*|\.[0-9]+)([eE][+-]?[0-9]+)?$',
+                        token):
                     percentage = float(token) / 100
-                except ValueError:
+                else:
+                    # (also names such as INF or NAN, which float() takes)
                     percentage = None
                 if percentage is not None:
                     tokens.add(percentage, self.TOK_TYPE_OPERAND)
